@@ -9,6 +9,7 @@ import UnifexModel.Driver.Entries.Timer
 import UnifexModel.Driver.Entries.Scope
 import UnifexModel.Driver.Entries.Bulk
 import UnifexModel.Driver.Entries.AnyObj
+import UnifexModel.Driver.Entries.Ctx
 
 namespace Unifex.Driver
 
@@ -23,6 +24,7 @@ def table : List ModelEntries :=
   , Entries.scopev0
   , Entries.bulk
   , Entries.anyobjEntries
+  , Entries.ctxEntries
   ]
 
 def lookup (m c : String) : Option Entry :=
